@@ -117,7 +117,9 @@ def asBodySpec (j : Json) : R BodySpec := do
   let g ← match optFld j "group_by" with | some v => some <$> asCols v | none => pure none
   let p ← match optFld j "page_by" with | some v => some <$> asCols v | none => pure none
   let s ← match optFld j "subline_by" with | some v => some <$> asCols v | none => pure none
-  return { groupBy := g, pageBy := p, sublineBy := s }
+  let np ← match optFld j "new_page" with | some v => asBool v | none => pure false
+  let pc ← match optFld j "pageby_column" with | some v => asBool v | none => pure true
+  return { groupBy := g, pageBy := p, sublineBy := s, newPage := np, pagebyColumn := pc }
 
 /-- `df`: `{"single": cols, "rows": n}` or `{"multi": [cols, …], "rows": [n, …]}` (`rows` optional: 3 each) -/
 def asDfData (j : Json) : R DfData := do
